@@ -14,6 +14,7 @@
 // default arguments that are class temporaries crash the front end (declaration of CPPManifest::expand, not a kernel)
 //@hdrsubst cpp*.h "from= = (vector_string|Ignores|CPPManifest::Ignores|YYSTYPE)\(\)" to=
 //@hdrinsert cppStructType.h after="bool is_destructible(CPPVisibility min_vis) const;" text="bool is_destructible__body(CPPVisibility min_vis) const; bool is_default_constructible__body(CPPVisibility min_vis) const; bool is_copy_constructible__body(CPPVisibility min_vis) const;"
+//@hdrinsert cppStructType.h after="void get_pure_virtual_funcs(VFunctions &funcs) const;" text="void get_pure_virtual_funcs__body(VFunctions &funcs) const;"
 //@bison src/cppparser/cppBison.yxx cppBison.h
 #include "dtoolbase.h"
 #include "cppStructType.h"
@@ -71,6 +72,13 @@ bool CPPType::is_default_constructible() const { for (int i = 0; i < NM; i++) if
 //@extract src/cppparser/cppStructType.cxx CPPStructType::is_default_constructible ordinal=1 rename=__body "subst1=@\(\*di\)\._base->as_struct_type\(\)@vu_as_struct_type((*di)._base)@"
 //@extract src/cppparser/cppStructType.cxx CPPStructType::is_copy_constructible ordinal=1 rename=__body "subst1=@\(\*di\)\._base->as_struct_type\(\)@vu_as_struct_type((*di)._base)@"
 
+// ---- virtual functions of the class and its bases, as get_virtual_funcs() collects them (callee): up to two functions that
+// are not yet overridden here, each pure or not, each a destructor or not
+#include "cppFunctionType.h"
+static CPPInstance *g_vf[2]; static int vin_nvf; static CPPFunctionType *g_vf_type[2];
+void CPPStructType::get_virtual_funcs(VFunctions &funcs) const { for (int i = 0; i < 2; i++) if (i < vin_nvf) funcs.push_back(g_vf[i]); }
+static CPPFunctionType *vu_as_function_type(CPPType *t) { for (int i = 0; i < 2; i++) if (t == (CPPType *)g_vf_type[i]) return g_vf_type[i]; return (CPPFunctionType *)0; }
+//@extract src/cppparser/cppStructType.cxx CPPStructType::get_pure_virtual_funcs rename=__body "subst1=@inst->_type->as_function_type\(\)@vu_as_function_type(inst->_type)@"
 static int vin_nb, vin_nm; static bool vin_member_static[NM], vin_member_has_init[NM];
 static void make_class() {
   g_self = VU_NEW(CPPStructType);
@@ -172,5 +180,30 @@ void h_is_copy_constructible() {
   }
   OBL(r == want, "C10.is_copy_constructible: equals the C++ rule (never a complete object of an abstract class, but an abstract base is copied as a base; declared copy constructor: accessible and not deleted; implicit: deleted by a declared move operation, an unusable destructor, or a base or non-static member that cannot be copied)");
   OBL(!g_base_asked_wrong, "C10.is_copy_constructible: base classes are judged with protected access");
+  VU_REACHED();
+}
+
+// [class.abstract], [class.dtor]: a class is abstract iff it has a pure virtual function that no final overrider replaces.
+// A destructor is never inherited: the destructor of this class - declared or implicit - overrides a base's (pure) virtual
+// destructor, so only this class's OWN pure virtual destructor counts.
+void h_get_pure_virtual_funcs() {
+  g_self = VU_NEW(CPPStructType);
+  vin_nvf = nondet_int(); __CPROVER_assume(vin_nvf >= 0 && vin_nvf <= 2);
+  bool vin_pure[2], vin_is_dtor[2]; bool vin_own_dtor_listed = nondet_bool();
+  for (int i = 0; i < 2; i++) {
+    g_vf[i] = VU_NEW(CPPInstance); g_vf_type[i] = VU_NEW(CPPFunctionType); g_vf[i]->_type = (CPPType *)g_vf_type[i];
+    vin_pure[i] = nondet_bool(); vin_is_dtor[i] = nondet_bool();
+    g_vf[i]->_storage_class = (nondet_int() & ~CPPInstance::SC_pure_virtual) | (vin_pure[i] ? CPPInstance::SC_pure_virtual : 0);
+    g_vf_type[i]->_flags = (nondet_int() & ~CPPFunctionType::F_destructor) | (vin_is_dtor[i] ? CPPFunctionType::F_destructor : 0);
+  }
+  // the class's own declared destructor, if any, is one of the listed functions or a function that is not listed
+  g_dtor = vin_own_dtor_listed ? g_vf[0] : (nondet_bool() ? (CPPInstance *)0 : VU_NEW(CPPInstance));
+  CPPStructType::VFunctions out;
+  g_self->get_pure_virtual_funcs__body(out);
+  __CPROVER_assume(!out._trunc);
+  size_t want = 0; bool in_out[2];
+  for (int i = 0; i < 2; i++) { in_out[i] = i < vin_nvf && vin_pure[i] && !(vin_is_dtor[i] && g_vf[i] != g_dtor); if (in_out[i]) want++; }
+  OBL(out._n == want, "C10.get_pure_virtual_funcs: the pure virtual functions of a class are the not-yet-overridden virtual functions marked pure, except a pure virtual destructor inherited from a base (the class's own destructor, declared or implicit, overrides it)");
+  for (int i = 0; i < 2; i++) if (in_out[i]) { bool found = false; for (size_t k = 0; k < 2; k++) if (k < out._n && out._d[k] == g_vf[i]) found = true; OBL(found, "C10.get_pure_virtual_funcs: every remaining pure virtual function is reported"); }
   VU_REACHED();
 }
